@@ -362,3 +362,16 @@ def field_read_locals(body, field):
             if p and p[-1].startswith("f:") and p[-1].split(":", 2)[2] == field:
                 out.add(s["pl"]["l"])
     return out
+
+
+def is_increment_by_one(body, stmt):
+    """Is `stmt` (an assignment to a counter field) `x = x + 1` (checked or unchecked add)?"""
+    rv = stmt["rv"]
+    if rv["rk"] == "binop":
+        return rv["op"].startswith("Add") and any(op.get("k") == "const" and op.get("int") == "1" for op in rv["ops"])
+    if rv["rk"] == "use":
+        orig = flow.origins(body, rv["ops"][0])
+        adds = [x for x in orig if x[0] == "arith"]
+        ones = [x for x in orig if x[0] == "const" and x[1] == "int" and x[2] == "1"]
+        return bool(adds) and all(a[1].startswith("Add") for a in adds) and bool(ones)
+    return False
